@@ -299,6 +299,12 @@ var flSerde = []string{
 	"a -> b\na -> b\nb -> a",
 	"'a.b'.'c.d' -> \"x\\\"y\"",
 	"A.x -> a.X",
+	// different objects whose ids read alike once quotes are dropped: a quoted dotted name next to the real nested path
+	"'a.b'\na.b",
+	"'a.b' -> a.b\na.b -> 'a.b'",
+	"c.'d.e'\nc.d.e\nc.d.e -> c.'d.e'",
+	"'\"a\"' -> a",
+	"'a.b'.c\na.'b.c'\na.b.c",
 	"a.near: top-center",
 	"x: {near: bottom-right; y -> z}",
 	"c.d.near: c.e",
@@ -310,7 +316,7 @@ func init() {
 	eng.Register(&eng.Check{
 		ID: "C26", Level: "exploration", HangBound: 900 * time.Second,
 		QuickBudget: 240 * time.Second, ThoroughBudget: 24 * time.Minute,
-		Rule: "every program of <=k statements over FLcore + a wire-format fragment (root label, config data, classes, sql tables with column connections, code/latex, styles, indexed/parallel connections, quoted/dotted/case-differing ids, nears) and the C17 name family; for every board: DeserializeGraph(SerializeGraph(g)) into a fresh graph is compared with g after compilation+SetDimensions and again after layout (objects in order, parents, children order, connection endpoints, every serialisable field of objects/connections except References, RootLevel, Data; second-generation wire bytes identical); then the diagram is laid out through the plugin protocol (execPlugin's serialize/deserialize around the real d2plugin.Serve layout sub-command, on in-process buffers) and the exported diagram / SVG compared with the in-process result; non-trivial = at least one object",
+		Rule: "every program of <=k statements over FLcore + a wire-format fragment (root label, config data, classes, sql tables with column connections, code/latex, styles, indexed/parallel connections, quoted/dotted/case-differing ids, quoted dotted names next to the nested path that spells the same text, nears) and the C17 name family; for every board: DeserializeGraph(SerializeGraph(g)) into a fresh graph is compared with g after compilation+SetDimensions and again after layout (objects in order, parents, children order, connection endpoints, every serialisable field of objects/connections except References, RootLevel, Data; second-generation wire bytes identical); then the diagram is laid out through the plugin protocol (execPlugin's serialize/deserialize around the real d2plugin.Serve layout sub-command, on in-process buffers) and the exported diagram / SVG compared with the in-process result; non-trivial = at least one object",
 		Assumptions: []string{
 			"AST references (Object.References, Scalar.MapKey) are not part of the statement's list and are not compared directly; their loss is only a violation if it changes the protocol result",
 			"the plugin side runs in the same process (d2plugin.Serve on buffers) instead of a child process; the pipe itself is trusted",
